@@ -130,6 +130,8 @@ def generate(rng, tier):
             if tier == 'quick' and nb > 4 and r.chance(1, 2):
                 continue
             u = unknown_item(r, 3)
+            if r.chance(1, 3):      # several undeclared items in a row (state kept between two skipped items)
+                u = u + b'\n' + unknown_item(r, 2) + (b'\n' + unknown_item(r, 1) if r.chance(1, 3) else b'')
             mod = render(items, k, u)
             ntok = len(re.findall(rb'\S+', u))
             n += 1
@@ -141,7 +143,8 @@ def generate(rng, tier):
     shapes = [b'unk {}', b'unk { a = 1 }', b'unk t { }', b'unk { inner { a = 1 } }', b'unk += {1}', b'unk = {1, 2}', b'unk(a)',
               b'unk { } unk2 { }', b'unk { x { y { z { } } } }', b'unk = v', b'unk "t t" { k = v }', b'unk { fn(a, b) }',
               b'unk { l = {1,2} }', b'unk { l += {1} }', b'unk(a, b)', b'unk("x", y)', b'"" = 1', b"'' = {a, b}", b'""(a, b)', b"'' t { }",
-              b'${NOSUCHVAR} = on']
+              b'${NOSUCHVAR} = on', b'unk { } unk2 t { }', b'unk t { } unk2 t2 { a = 1 }', b'unk { x { } } unk2 "t" { y { } }', b'unk t { } unk2 { }',
+              b'unk { } unk2 { } unk3 t { z = 1 }', b'unk += 3', b'unk += "v"', b'unk += {1} unk2 += 2', b'unk = {a, b} unk2 = c']
     deep = 20000 if tier == 'quick' else 100000
     shapes += [b'unk { ' * deep + b'} ' * deep, b'unk {' + b' a { b = 1 }' * (deep // 10) + b' }']
     for s in shapes:
